@@ -260,6 +260,50 @@ def run_property(pid, level="model_checking", extra=None):
     return rep.finish()
 
 
+def free_running(rep, pid, plans, hot=False):
+    """Free-running stress traces (no parking) judged by ServeObs for the reasons of `pid`: the real CDB / RocksDB
+    backends (C05: what a query sees after a reload really returned) and the maximum-throughput runs on the
+    instrumented backend (C06: touches of a closed backend between the seams the replay can steer)."""
+    import os
+    mine = REASONS[pid]
+    traces, queries, reloads = [], 0, 0
+    for i, (backend, dur, ponly) in enumerate(plans):
+        tr = os.path.join(vlib.OUT, "%s-free-%d.ndjson" % (pid.lower(), i))
+        args = ["serve-stress", "-backend", backend, "-dur", "%ds" % dur, "-out", tr, "-id", str(300 + i), "-workers", "16" if hot else "8"]
+        if hot:
+            args.append("-hot")
+        if ponly:
+            args.append("-partial-only")
+        p = vlib.run_vh(args, timeout=dur + 180, check=False)
+        if p.returncode != 0:
+            tail = (p.stderr or "")[-1200:]
+            if "crash" in mine or pid == "C06":
+                rep.violation("crash|%s|free-running" % backend, "free-running stress on %s died (rc=%d): %s" % (backend, p.returncode, tail[-500:]), {"backend": backend, "stderr": tail})
+            continue
+        info = json.loads(p.stdout.strip().splitlines()[-1])
+        queries += info["queries"]
+        reloads += info["reloads"]
+        if hot:
+            for raw in open(tr):
+                e = json.loads(raw)
+                if e.get("ev") in ("uac", "dblclose") and pid == "C06":
+                    rep.violation("%s|%s|hot|method=%s" % ("UseAfterClose" if e["ev"] == "uac" else "DoubleClose", backend, e.get("method", "")),
+                                  "free-running stress on %s: closed backend %s touched by %s" % (backend, e.get("backend"), e.get("method")), {"event": e})
+        traces.append(tr)
+    if traces:
+        allp = os.path.join(vlib.OUT, "%s-free-all.ndjson" % pid.lower())
+        with open(allp, "w") as f:
+            for tr in traces:
+                f.write(open(tr).read())
+        res = tv("ServeObs", allp, timeout=3000)
+        for why, sig, desc, rp in classify(allp, res["rejects"]):
+            if why in mine:
+                rep.violation(sig, desc, rp)
+        rep.cov["free_running"] = {"runs": len(traces), "queries": queries, "reloads": reloads, "events_validated": res["total"], "backends": [b for b, _, _ in plans]}
+        rep.cov["evaluations"] = rep.cov.get("evaluations", 0) + queries + reloads
+        rep.cov["traces_validated_against_impl"] = rep.cov.get("traces_validated_against_impl", 0) + len(traces)
+
+
 def overlaps(steps):
     inreload = False
     inflight = set()
